@@ -103,13 +103,12 @@ namespace hs
     // temporary_allocator on an explicitly created temporary_stack (single thread; the multi-threaded life of
     // the per-thread stacks is schedsim's business). Markers are scopes: "top" opens a nested
     // temporary_allocator, "unwind(m)" ends every scope above m and m itself and opens a fresh one in its place.
+    // The interpreter opens scope 0 right after creation, so the outermost temporary_allocator of the stack ends
+    // and restarts with unwind(0) like any other.
     class TempObj : public Obj
     {
     public:
-        explicit TempObj(fm::temporary_stack* s) : stack_(s)
-        {
-            scopes_.emplace_back(new fm::temporary_allocator(*stack_)); // base scope
-        }
+        explicit TempObj(fm::temporary_stack* s) : stack_(s) {}
         ~TempObj() override
         {
             for (auto& s : scopes_)
@@ -118,6 +117,8 @@ namespace hs
         using traits = fm::allocator_traits<fm::temporary_allocator>;
         void* allocate(const Req& r, std::size_t& usable) override
         {
+            if (scopes_.empty())
+                scopes_.emplace_back(new fm::temporary_allocator(*stack_));
             auto& a = *scopes_.back();
             usable  = r.array ? r.count * r.size : r.size;
             if (r.fam == MEMBER)
@@ -131,15 +132,15 @@ namespace hs
         }
         std::size_t max_node() override
         {
-            return traits::max_node_size(*scopes_.back());
+            return scopes_.empty() ? 0 : traits::max_node_size(*scopes_.back());
         }
         std::size_t max_array() override
         {
-            return traits::max_array_size(*scopes_.back());
+            return scopes_.empty() ? 0 : traits::max_array_size(*scopes_.back());
         }
         std::size_t max_align() override
         {
-            return traits::max_alignment(*scopes_.back());
+            return scopes_.empty() ? 0 : traits::max_alignment(*scopes_.back());
         }
         std::size_t reading(int which, std::size_t) override
         {
@@ -148,18 +149,24 @@ namespace hs
         int push_marker() override
         {
             scopes_.emplace_back(new fm::temporary_allocator(*stack_));
-            return int(scopes_.size()) - 2; // marker i <-> scope i+1
+            return int(scopes_.size()) - 1; // marker i <-> scope i
         }
         void unwind(int i) override
         {
-            while (int(scopes_.size()) > i + 1)
+            while (int(scopes_.size()) > i)
                 scopes_.pop_back(); // innermost first, as the language would
             scopes_.emplace_back(new fm::temporary_allocator(*stack_));
         }
         void truncate_markers(int) override {}
         void shrink_to_fit() override
         {
-            scopes_.back()->shrink_to_fit(); // takes effect when that scope ends
+            if (!scopes_.empty())
+                scopes_.back()->shrink_to_fit(); // takes effect when that scope ends
+        }
+        void shrink_scope(int k) override
+        {
+            if (k >= 0 && k < int(scopes_.size()))
+                scopes_[std::size_t(k)]->shrink_to_fit(); // legal on an allocator that is not the active one
         }
         std::size_t object_size() const override
         {
